@@ -20,6 +20,12 @@ def apply_edit(root, v):
         p = subprocess.run(['patch', '-p1', '-s', '-f', '--no-backup-if-mismatch', '-d', root, '-i', v['patch']],
                            capture_output=True, text=True)
         return None if p.returncode == 0 else 'seeded patch no longer applies: ' + (p.stdout + p.stderr).strip()[:120]
+    if v.get('transform') == 'rename_locals':
+        return rename_locals_tree(root, v.get('suffix', '_rn'))
+    if v.get('transform') == 'swap_branches':
+        return swap_branches_tree(root)
+    if v.get('transform') == 'explain_temps':
+        return explain_temps_tree(root)
     path = os.path.join(root, 'setigen', v['file'])
     if not os.path.exists(path):
         return 'file missing'
@@ -67,6 +73,121 @@ def apply_edit(root, v):
     out = lines[:lo] + new_seg.split('\n') + lines[hi:]
     with open(path, 'w') as f:
         f.write('\n'.join(out))
+    return None
+
+
+def rename_locals_tree(root, suffix):
+    """behaviour-preserving transform: every local variable of every function gets a new name (parameters,
+    attributes, globals and keyword names are untouched)"""
+    import builtins
+
+    def rename_function(fn):
+        params = set()
+        for n in ast.walk(fn):
+            if isinstance(n, (ast.FunctionDef, ast.AsyncFunctionDef, ast.Lambda)):
+                a = n.args
+                for x in a.posonlyargs + a.args + a.kwonlyargs:
+                    params.add(x.arg)
+                if a.vararg:
+                    params.add(a.vararg.arg)
+                if a.kwarg:
+                    params.add(a.kwarg.arg)
+        declared = set()
+        for n in ast.walk(fn):
+            if isinstance(n, (ast.Global, ast.Nonlocal)):
+                declared.update(n.names)
+        nested = {n.name for n in ast.walk(fn) if isinstance(n, (ast.FunctionDef, ast.ClassDef)) and n is not fn}
+        stored = set()
+        for n in ast.walk(fn):
+            if isinstance(n, ast.Name) and isinstance(n.ctx, (ast.Store, ast.Del)):
+                stored.add(n.id)
+            if isinstance(n, ast.ExceptHandler) and n.name:
+                stored.add(n.name)
+        targets = {x for x in stored if x not in params and x not in declared and x not in nested
+                   and not hasattr(builtins, x) and x != '_'}
+        for n in ast.walk(fn):
+            if isinstance(n, ast.Name) and n.id in targets:
+                n.id = n.id + suffix
+            if isinstance(n, ast.ExceptHandler) and n.name in targets:
+                n.name = n.name + suffix
+    for dp, dns, fns in os.walk(os.path.join(root, 'setigen')):
+        for f in fns:
+            if not f.endswith('.py'):
+                continue
+            p = os.path.join(dp, f)
+            tree = ast.parse(open(p).read())
+            for node in tree.body:
+                if isinstance(node, (ast.FunctionDef, ast.AsyncFunctionDef)):
+                    rename_function(node)
+                elif isinstance(node, ast.ClassDef):
+                    for sub in node.body:
+                        if isinstance(sub, (ast.FunctionDef, ast.AsyncFunctionDef)):
+                            rename_function(sub)
+            with open(p, 'w') as fh:
+                fh.write(ast.unparse(tree) + '\n')
+    return None
+
+
+def _each_function(root):
+    for dp, dns, fns in os.walk(os.path.join(root, 'setigen')):
+        for f in sorted(fns):
+            if f.endswith('.py'):
+                p = os.path.join(dp, f)
+                tree = ast.parse(open(p).read())
+                yield p, tree
+
+
+def swap_branches_tree(root):
+    """behaviour-preserving transform: `if c: A else: B`  ->  `if not c: B else: A` (plain if/else without elif)"""
+    class Tr(ast.NodeTransformer):
+        def visit_If(self, node):
+            self.generic_visit(node)
+            if node.orelse and not (len(node.orelse) == 1 and isinstance(node.orelse[0], ast.If)):
+                node.test = ast.UnaryOp(op=ast.Not(), operand=node.test)
+                node.body, node.orelse = node.orelse, node.body
+            return node
+    for p, tree in _each_function(root):
+        tree = ast.fix_missing_locations(Tr().visit(tree))
+        with open(p, 'w') as fh:
+            fh.write(ast.unparse(tree) + '\n')
+    return None
+
+
+def explain_temps_tree(root):
+    """behaviour-preserving transform: `x = L op R` (L itself a binary operation) -> `_tmpK = L; x = _tmpK op R`
+    (evaluation order kept; only plain single-target name assignments outside comprehensions/lambdas)"""
+    counter = [0]
+
+    class Tr(ast.NodeTransformer):
+        def visit_Lambda(self, node):
+            return node
+
+        def _block(self, stmts):
+            out = []
+            for st in stmts:
+                st = self.visit(st)
+                if isinstance(st, ast.Assign) and len(st.targets) == 1 and isinstance(st.targets[0], ast.Name) \
+                        and isinstance(st.value, ast.BinOp) and isinstance(st.value.left, ast.BinOp) \
+                        and not any(isinstance(n, (ast.NamedExpr, ast.Yield, ast.Await)) for n in ast.walk(st.value)):
+                    counter[0] += 1
+                    tmp = f'_tmp{counter[0]}'
+                    out.append(ast.Assign(targets=[ast.Name(id=tmp, ctx=ast.Store())], value=st.value.left, lineno=st.lineno))
+                    st.value.left = ast.Name(id=tmp, ctx=ast.Load())
+                out.append(st)
+            return out
+
+        def generic_visit(self, node):
+            for field in ('body', 'orelse', 'finalbody'):
+                v = getattr(node, field, None)
+                if isinstance(v, list) and v and isinstance(v[0], ast.stmt):
+                    setattr(node, field, self._block(v))
+            for h in getattr(node, 'handlers', []) or []:
+                h.body = self._block(h.body)
+            return node
+    for p, tree in _each_function(root):
+        tree = ast.fix_missing_locations(Tr().visit(tree))
+        with open(p, 'w') as fh:
+            fh.write(ast.unparse(tree) + '\n')
     return None
 
 
